@@ -69,32 +69,42 @@ def run(chk: Check) -> None:
 # ---------------------------------------------------------------------- 1. DISP entering / entered
 def disp_hooks(chk: Check) -> None:
     prog = chk.prog
+    from ..rules import dispatch_sites
+
+    def hook_sites(f, subject_keys):
+        ff = chk.ctx.facts.analyse(f)
+        sites = dispatch_sites(ff, lambda c: last_name(c) == 'call_with_super_check' and bool(c.args) and isinstance(c.args[0], ast.Attribute))
+        table: Dict[str, List[ast.Call]] = {}
+        for n, c, pins in sites:
+            members = set()
+            for k in subject_keys:
+                members |= {v.split('.')[-1] for v in pins.get(k, set()) if v.startswith('ProcessState.')}
+            for m in members:
+                table.setdefault(m, []).append(c)
+            if not members:
+                table.setdefault('<unconditional>', []).append(c)
+        return table
+
     oe = prog.func('processes.Process.on_entering')
-    subj, lad = label_ladder(prog, oe)
-    chk.need(subj is not None, 'no state-label ladder in Process.on_entering')
     sparam = oe.params[1]
-    src = subject_source(oe, subj)
-    chk.ob('DISP-entering', oe, src == f'{sparam}.LABEL', f'the ladder dispatches on the label of the state being entered ({src})', kind='subject')
+    table = hook_sites(oe, [f'{sparam}.LABEL', f'{sparam}.label'])
     for member in common.STATE_MEMBERS:
         hook, args = ENTERING[member]
-        body = lad.get(member)
-        if body is None:
-            chk.ob('DISP-entering', oe, False, f'no branch for {member}: entering it calls no hook (future unresolved / inputs unparsed)',
-                   kind=f'branch:{member}', expr=member)
+        cs = table.get(member, [])
+        if not cs:
+            chk.ob('DISP-entering', oe, False, f'no hook is called for a state labelled {member} (dispatch on the label of the state being entered): '
+                   'future unresolved / inputs unparsed', kind=f'branch:{member}', expr=member)
             continue
-        cs = [c for s in body for c in ast.walk(s) if isinstance(c, ast.Call) and last_name(c) == 'call_with_super_check']
-        ok = len(cs) == 1 and cs[0].args and norm(cs[0].args[0]) == f'self.{hook}' and [norm(a) for a in cs[0].args[1:]] == [a.format(s=sparam) for a in args]
+        ok = len(cs) == 1 and norm(cs[0].args[0]) == f'self.{hook}' and [norm(a) for a in cs[0].args[1:]] == [a.format(s=sparam) for a in args]
         chk.ob('DISP-entering', oe, ok, f'entering {member} calls {hook}({", ".join(args).format(s=sparam)}) exactly once',
-               node=cs[0] if cs else None, kind=f'branch:{member}', expr=None if cs else member)
+               node=cs[0], kind=f'branch:{member}')
+    chk.ob('DISP-entering', oe, '<unconditional>' not in table, 'every hook call in on_entering is tied to one state label', kind='no-unconditional-hook')
     oed = prog.func('processes.Process.on_entered')
-    subj, lad = label_ladder(prog, oed)
-    chk.need(subj is not None, 'no state-label ladder in Process.on_entered')
-    chk.ob('DISP-entered', oed, subject_source(oed, subj) == 'self._state.LABEL', 'the ladder dispatches on the label of the current state', kind='subject')
+    table = hook_sites(oed, ['self._state.LABEL', 'self._state.label'])
     for member, hook in ENTERED.items():
-        body = lad.get(member)
-        cs = [c for s in (body or []) for c in ast.walk(s) if isinstance(c, ast.Call) and last_name(c) == 'call_with_super_check']
-        ok = len(cs) == 1 and cs[0].args and norm(cs[0].args[0]) == f'self.{hook}'
-        chk.ob('DISP-entered', oed, ok, f'having entered {member} calls {hook} exactly once', node=cs[0] if cs else None,
+        cs = table.get(member, [])
+        ok = len(cs) == 1 and norm(cs[0].args[0]) == f'self.{hook}'
+        chk.ob('DISP-entered', oed, ok, f'having entered {member} calls {hook} exactly once (dispatch on the label of the current state)', node=cs[0] if cs else None,
                kind=f'branch:{member}', expr=None if cs else member)
     # the payload fields read exist in the state classes
     by_label = common.labelled_states(prog)
@@ -267,7 +277,7 @@ def accessors(chk: Check) -> None:
     for cls_q, fields in (('process_states.Finished', {'result': 'result', 'successful': 'successful'}),
                           ('process_states.Killed', {'msg': 'msg'}), ('process_states.Excepted', {'exception': 'exception', 'traceback': 'trace_back'})):
         c = prog.cls(cls_q)
-        cap = {a: p for a, p, k in captured_fields(c.methods['__init__'])}
+        cap = {a: p for a, p, k in captured_fields(prog.view(c.methods['__init__']))}
         chk.ob('DISP-accessor', cls_q, all(cap.get(a) == p for a, p in fields.items()), f'{c.name} stores {sorted(fields)} from its constructor arguments ({cap})',
                kind='state-fields')
 
